@@ -452,6 +452,10 @@ func c14Drivers() []c14Conc {
 		{Name: "put3-vs-seek-prev", Pre: []string{"pb1"}, Writer: []string{"pa1", "pc2", "pb0"}, Readers: [][]string{{"Seek:b", "Prev", "Next", "Next"}}, QB: 3, TB: 5},
 		{Name: "put3-vs-get-find", Pre: []string{"pb1"}, Writer: []string{"pa1", "pb2", "db"}, Readers: [][]string{{"Get:a", "Find:b", "Get:b"}}, QB: 3, TB: 5},
 		{Name: "put-del-vs-two-readers", Pre: []string{"pa1", "pc1"}, Writer: []string{"pb2", "da", "pa2"}, Readers: [][]string{{"First", "Next", "Next"}, {"Last", "Prev", "Prev"}}, QB: 2, TB: 3},
+		// two readers walking backward at the same time (and one ranged Last): whatever scratch
+		// state the lookups use must not be shared between readers holding only the read lock
+		{Name: "two-backward-readers", Pre: []string{"pa1", "pb1", "pc1"}, Writer: []string{"pb2"}, Readers: [][]string{{"Last", "Prev", "Prev"}, {"Seek:c", "Prev", "Prev"}}, QB: 2, TB: 3},
+		{Name: "backward-reader-vs-forward-reader", Pre: []string{"pa1", "pb1", "pc1"}, Writer: []string{"db"}, Readers: [][]string{{"Last", "Prev", "Prev"}, {"First", "Next", "Find:b"}}, QB: 2, TB: 3},
 		{Name: "same-length-overwrite-vs-readers", Pre: []string{"pa1", "pb1"}, Writer: []string{"pb3", "pa3", "pb1"}, Readers: [][]string{{"First", "Next"}, {"Get:b", "Find:a"}}, QB: 2, TB: 4},
 		{Name: "overwrite-vs-scan", Pre: []string{"pa1", "pb1", "pc1"}, Writer: []string{"pb2", "pb0", "pb2"}, Readers: [][]string{{"First", "Next", "Next", "Next"}, {"Get:b", "Get:b"}}, QB: 2, TB: 3},
 	}
